@@ -86,6 +86,7 @@ type rlua struct {
 	strmeta *rtable
 	// softBound: exceeding the step bound skips the program instead of aborting the path; tooLong: it did
 	softBound, tooLong bool
+	frames             []*rfunc
 }
 
 type rsep struct{} // separator between emit calls in the trace
@@ -502,10 +503,15 @@ func (r *rlua) setindex(o, k, v rval) {
 
 func (r *rlua) call(f rval, args []rval) []rval {
 	r.tick()
+	// activation records for getfenv/setfenv levels: one entry per active call, nil for a builtin
+	n := len(r.frames)
+	defer func() { r.frames = r.frames[:n] }()
 	switch fn := f.(type) {
 	case *rbuiltin:
+		r.frames = append(r.frames, nil)
 		return fn.fn(r, args)
 	case *rfunc:
+		r.frames = append(r.frames, fn)
 		env := &renv{parent: fn.env, plimit: fn.envLim}
 		names := fn.par.Names
 		if fn.self {
@@ -991,6 +997,54 @@ func newRlua() *rlua {
 			}
 		}()
 		return append([]rval{LTrue}, r.call(args[0], nil)...)
+	})
+	// getfenv/setfenv (manual 5.1): a function argument names that function; a level n >= 1 names the function
+	// n activations above this builtin (1 = the caller); level 0 is the global environment.
+	fenvTarget := func(r *rlua, a rval, what string) *rfunc {
+		switch x := a.(type) {
+		case *rfunc:
+			return x
+		case LNumber:
+			lv := int(x)
+			if lv < 0 {
+				r.fail("bad argument #1 to '" + what + "' (level must be non-negative)")
+			}
+			idx := len(r.frames) - 1 - lv
+			if lv == 0 || idx < 0 || r.frames[idx] == nil {
+				return nil
+			}
+			return r.frames[idx]
+		}
+		return nil
+	}
+	reg("getfenv", func(r *rlua, args []rval) []rval {
+		var a rval = LNumber(1)
+		if len(args) > 0 && args[0] != rval(LNil) {
+			a = args[0]
+		}
+		if _, isB := a.(*rbuiltin); isB {
+			return []rval{r.globals}
+		}
+		if n, ok := a.(LNumber); ok && n == 0 {
+			return []rval{r.globals}
+		}
+		f := fenvTarget(r, a, "getfenv")
+		if f == nil {
+			r.fail("bad argument #1 to 'getfenv' (invalid level)")
+		}
+		return []rval{f.fenv}
+	})
+	reg("setfenv", func(r *rlua, args []rval) []rval {
+		t, ok := arg(args, 1).(*rtable)
+		if !ok {
+			r.fail("bad argument #2 to 'setfenv' (table expected)")
+		}
+		f := fenvTarget(r, arg(args, 0), "setfenv")
+		if f == nil {
+			r.fail("'setfenv' cannot change environment of given object")
+		}
+		f.fenv = t
+		return []rval{f}
 	})
 	reg("select", func(r *rlua, args []rval) []rval {
 		if s, ok := arg(args, 0).(LString); ok && s == "#" {
